@@ -613,7 +613,7 @@ func execOp(s *Sexp) string {
 				data[i] = 0xAA
 			}
 			if !reflect.DeepEqual(out, in) {
-				return fmt.Sprintf("ok wrong: after the input buffer was overwritten the decoded value is %v", out)
+				return fmt.Sprintf("ok wrong: after the input buffer was overwritten the decoded value is %q", fmt.Sprint(out))
 			}
 			return "ok"
 		})
